@@ -22,6 +22,7 @@ type stdFn struct {
 	call   func(args []string, n string) string // TypeShell statements printing the result(s)
 	ref    func(a []string, n int) string       // expected stdout, from Go's strings package
 	maxLen []int                                // per string argument (quick)
+	alpha  string                               // alphabet of the argument bytes (default "ab ")
 }
 
 func b01(b bool) string {
@@ -108,7 +109,8 @@ func stdFns() []stdFn {
 		},
 			ref: func(a []string, n int) string { return "[" + strings.Trim(a[0], a[1]) + "]\n" }, maxLen: []int{3, 2}},
 		{name: "TrimSpace", nStr: 1, call: func(a []string, n string) string { return "print(\"[\" + strings.TrimSpace(" + a[0] + ") + \"]\")\n" },
-			ref: func(a []string, n int) string { return "[" + strings.TrimSpace(a[0]) + "]\n" }, maxLen: []int{3}},
+			// the letters of the escape sequences in the library's white-space set, a tab and a blank
+			ref: func(a []string, n int) string { return "[" + strings.TrimSpace(a[0]) + "]\n" }, maxLen: []int{3}, alpha: "vtnrf\t "},
 	}
 }
 
@@ -170,7 +172,7 @@ func CheckC15(r *Run) int {
 	r.Native = nat
 	quick := r.Tier == "quick"
 	fns := stdFns()
-	alpha := "ab "
+	defaultAlpha := "ab "
 	var bads []stdOutcome
 	okN := 0
 	tupleCount := 0
@@ -178,6 +180,10 @@ func CheckC15(r *Run) int {
 	st := r.Eng.Explore(func(c *gosym.Ctx) interface{} {
 		B := c.B
 		f := fns[c.Choose("function", 0, len(fns)-1)]
+		alpha := defaultAlpha
+		if f.alpha != "" {
+			alpha = f.alpha
+		}
 		lens := make([]int, f.nStr)
 		for i := range lens {
 			mx := f.maxLen[i]
@@ -328,7 +334,7 @@ func CheckC15(r *Run) int {
 			bads = append(bads, o)
 		}
 	}})
-	r.Absorb("H_C15_std_strings", st, fmt.Sprintf("%d functions of std/strings.tsh; every string argument is 0..maxLen symbolic bytes over %q (maxLen per function 1..3, +1 in thorough), counts -2..4, slices of 2 elements; the compiled library runs under ShSem, the result is compared with Go's strings package for every argument tuple on the path", len(fns), alpha))
+	r.Absorb("H_C15_std_strings", st, fmt.Sprintf("%d functions of std/strings.tsh; every string argument is 0..maxLen symbolic bytes over %q (maxLen per function 1..3, +1 in thorough), counts -2..4, slices of 2 elements; the compiled library runs under ShSem, the result is compared with Go's strings package for every argument tuple on the path", len(fns), defaultAlpha+" (TrimSpace: \"vtnrf\", tab, blank)"))
 	sort.SliceStable(bads, func(i, j int) bool {
 		a, b := bads[i], bads[j]
 		if a.Fn != b.Fn {
